@@ -526,6 +526,8 @@ class Node(object):
         """
         srvr.total_time = self.increment_time(self.now, -srvr.start_date)
         self.overtime.append(self.increment_time(self.now, -srvr.shift_end))
+        srvr.busy_time -= srvr.wrapped_up_busy_time
+        srvr.wrapped_up_busy_time = 0
         self.all_servers_busy.append(srvr.busy_time)
         self.all_servers_total.append(srvr.total_time)
         indx = self.servers.index(srvr)
